@@ -4,6 +4,7 @@ three foci of one state machine; every emitted state replayed on pyhf.PatchSet /
 import json
 import random
 import re
+import shutil
 from concurrent.futures import ThreadPoolExecutor
 
 import tlc
@@ -15,7 +16,7 @@ INVARIANTS = ["RegisterIsAccept", "TwoMapsExact", "LookupExact", "VariantsClassi
 
 # The implementation-shaped layer transcribes the tree as read: _patches_by_key = {'name': {}, 'values': {}}.  Once the
 # dictionary starts empty in /repo (proposed fix c17_patchset.diff) set this to False: ImplEqDef is then asserted.
-IMPL_SHARED_BOOKKEEPING = True
+IMPL_SHARED_BOOKKEEPING = False
 
 # AllNames == <<"name", "values", "metadata", "patches", "Sig_A", "sig_a", "p_3">>;  AllGrid == <<0, 1, 3/2, -2>>
 BASE = dict(NameSel={1, 2, 3, 4, 5, 6}, LabelCounts={1, 2}, GridSel={1, 2, 3}, MaxPatches=2, DigestCfgs={1},
@@ -24,10 +25,10 @@ BASE = dict(NameSel={1, 2, 3, 4, 5, 6}, LabelCounts={1, 2}, GridSel={1, 2, 3}, M
 ALLDIG = set(range(1, 11))
 TIERS = {
     "quick": {
-        "lookup": dict(BASE, DoLookup=True, EmitMod=1),
+        "lookup": dict(BASE, DoLookup=True, EmitMod=2),
         "verify": dict(BASE, NameSel={3, 6}, LabelCounts={1}, GridSel={2}, MaxPatches=1, DigestCfgs=ALLDIG, DoVerify=True),
         "apply": dict(BASE, NameSel={3, 6}, LabelCounts={1}, GridSel={1, 3}, DigestCfgs={2, 5}, DoApply=True, MaxOps=2,
-                      ApplyVariantKinds={'"same"', '"permall"', '"swap"'}, EmitMod=4),
+                      ApplyVariantKinds={'"same"', '"permall"', '"swap"'}, EmitMod=8),
     },
     "thorough": {
         "lookup": dict(BASE, NameSel={1, 2, 3, 4, 5, 6, 7}, GridSel={1, 2, 3, 4}, DoLookup=True, EmitMod=2),
@@ -81,6 +82,8 @@ def run(prop, tier):
         futs = [ex.submit(model_check, it) for it in TIERS[tier].items()] + [ex.submit(model_check_cex, b) for b in (True, False)]
         results = dict(f.result() for f in futs)
     cex, cex_fixed = results.pop("ImplEqDef:True"), results.pop("ImplEqDef:False")
+    if not cex.ok and not cex.cached:
+        shutil.rmtree(cex.run_dir, ignore_errors=True)      # tlc.run keeps the directory of a run that found an error
     if not cex_fixed.ok:
         raise Machinery("MC_PatchSet: ImplEqDef fails although the dictionary starts empty:\n" + cex_fixed.tail[-2000:])
     for focus, res in results.items():
